@@ -275,8 +275,9 @@ def judge_resp(sim, ev, rec):
             else:
                 F.setdefault("embedded_trusted", []).append(what)
         # C20: a genuine tool success for this element under a trusted certificate
-        genuine = [t for t in rec["tool"] if t.get("op") == "verify" and t.get("node_id") == ident
-                   and t.get("genuine_ok")]
+        # (matched on what the verification actually covered, not on how the tool was invoked)
+        genuine = [t for t in rec["tool"] if t.get("op") == "verify" and t.get("genuine_ok")
+                   and (t.get("node_id") == ident or ident in (t.get("covers") or []))]
         if not genuine:
             hits.append(("C20", "no-genuine-verify." + what, "id=%s tool=%s" % (
                 ident, [(t.get("op"), t.get("fault"), t.get("healthy_ok")) for t in rec["tool"]]), enc))
